@@ -444,6 +444,51 @@ fn budgets(rep: &Reporter, n_runs: usize) {
     }
 }
 
+/// `Configuration::optimize` (its own state set-up: Global evaluator, unseeded generator) and an
+/// evaluator built with `Default`: reported evaluations must equal objective calls there too.
+fn optimize_path(rep: &Reporter) {
+    use mahf::heuristics::{es, fa, ga, ils, ls};
+    use mahf::state::common::Evaluator;
+    for k in 0..rep.tier.pick(40u64, 400u64) {
+        let problem = templates::real_instance((k % 6) as usize);
+        let n = 1 + (k % 7) as u32;
+        let (cfg, name) = match k % 4 {
+            0 => (ga::real_ga(ga::RealProblemParameters { population_size: 5, tournament_size: 2, pm: 1.0, deviation: 0.1, pc: 0.5 }, LessThanN::iterations(n)), "GaReal"),
+            1 => (es::real_mu_plus_lambda_es::<Real, ()>(es::RealProblemParameters { population_size: 3, lambda: 4, deviation: 0.1 }, LessThanN::iterations(n)), "Es"),
+            2 => (fa::real_fa(fa::RealProblemParameters { pop_size: 4, alpha: 0.3, beta: 1.0, gamma: 1.0, delta: 0.9 }, LessThanN::iterations(n)), "Fa"),
+            _ => (ils::real_ils(ils::RealProblemParameters { ls_params: ls::RealProblemParameters { n_neighbors: 2, deviation: 0.1 }, ls_condition: LessThanN::iterations(2) }, LessThanN::iterations(n)), "IlsReal"),
+        };
+        let cfg = cfg.unwrap();
+        for variant in 0..3 {
+            problem.instr.reset();
+            rep.case();
+            rep.nontrivial(hash_of(&("optimize", name, k, variant)));
+            let r = mv::catch(|| {
+                match variant {
+                    0 => cfg.optimize(&problem, evaluate::Sequential::new()),
+                    1 => cfg.optimize(&problem, evaluate::Parallel::new()),
+                    _ => cfg.optimize_with(&problem, |s| {
+                        s.insert(Evaluator::<Real, Global>::default());
+                        Ok(())
+                    }),
+                }
+                .map(|s| (s.evaluations() as u64, s.iterations()))
+                .map_err(|e| format!("{e:#}"))
+            });
+            rep.count("optimize_entry_point_runs", 1);
+            match r {
+                Ok(Ok((reported, iters))) => {
+                    let entry = ["optimize(Sequential)", "optimize(Parallel)", "optimize_with + Evaluator::default()"][variant];
+                    if reported != problem.instr.calls() || iters != n {
+                        rep.violation(&format!("optimize:{name}:reported-evaluations-or-iterations-wrong"), json!({"entry": entry, "reported": reported, "objective_calls": problem.instr.calls(), "iterations": iters, "requested": n}));
+                    }
+                }
+                other => rep.violation(&format!("optimize:{name}:run-failed"), json!({"variant": variant, "result": format!("{other:?}")})),
+            }
+        }
+    }
+}
+
 fn main() {
     let rep = Reporter::from_args("C06");
     rep.fold_aux();
@@ -471,6 +516,7 @@ fn main() {
     rep.count("template_runs", n as u64);
     generated(&rep, rep.tier.pick(10_000, 80_000), &pools);
     budgets(&rep, rep.tier.pick(1_000, 6_000));
+    optimize_path(&rep);
     if rep.counter("evaluation_steps_observed") == 0 {
         rep.inconclusive("hook never reached: no evaluation step observed");
     }
